@@ -235,6 +235,17 @@ def run(ctx):
                                                'absent'),
                  'creation reachable although an execution was found',
                  ctx.loc(df, c))
+    # an existing join execution is not restarted by a further trigger
+    cfg = ctx.cfg(df)
+    INs, ks = sd.analyze(cfg, df, [('self.task_ex.state', sd.state_domain)])
+    for n, c in U.calls_in(cfg, 'set_state'):
+        vals = sd.values_at(INs, ks, n, 'self.task_ex.state')
+        bad = vals & (completed | {S['RUNNING'], S['RUNNING_DELAYED']})
+        r3.check(not bad, ctx.construct(df, c),
+                 'a further trigger moves the existing join execution back '
+                 'to WAITING although it is %s: it is refreshed and started '
+                 'again (join: one / join: N run once per late branch)'
+                 % sorted(bad), ctx.loc(df, c))
     cn = prog.func(RT + '.create_new')
     cfg = ctx.cfg(cn)
     IN, keys = sd.analyze(cfg, cn, [('self.waiting', (False, True))])
@@ -352,6 +363,34 @@ def run(ctx):
              ctx.construct(st, extra='requires all SUCCESS'),
              'requires are not compared against SUCCESS tasks only',
              ctx.loc(st))
+
+    # ---- R8 the execution cache covers what is looked up -----------------------
+    r8 = ctx.rule('R8', 'the task-execution cache is loaded for the spec '
+                  'whose inbound tasks are looked up in it', 'AGREE')
+    n8 = 0
+    for q, f in sorted(prog.funcs.items()):
+        if not q.startswith(DWC + '.'):
+            continue
+        loads = [n for n in own_nodes(f.node) if isinstance(n, ast.Call) and
+                 U.call_name(n) == '_prepare_task_executions_cache']
+        inb = [n for n in own_nodes(f.node) if isinstance(n, ast.Call) and
+               U.call_name(n) == 'find_inbound_task_specs']
+        if not loads or not inb:
+            continue
+        src = {norm(n.args[0]) for n in inb if n.args}
+        for c in loads:
+            n8 += 1
+            r8.check(bool(c.args) and norm(c.args[0]) in src,
+                     ctx.construct(f, c),
+                     'the cache is (re)loaded for %s but the inbound tasks '
+                     'looked up in it are those of %s: executions of those '
+                     'tasks are missing from the cache and are taken for '
+                     '"not started yet" (a dead route looks possible, the '
+                     'join waits for ever)'
+                     % (norm(c.args[0]) if c.args else None, sorted(src)),
+                     ctx.loc(f, c))
+    if n8 < 2:
+        raise AnalysisError('C04.R8: cache loads not found')
 
     # ---- R7 termination devices ------------------------------------------------
     r7 = ctx.rule('R7', 'task-graph walks end on cyclic definitions',
